@@ -18,6 +18,7 @@ import (
 	"io"
 	"mime"
 	"mime/multipart"
+	"net"
 	"net/http"
 	"net/url"
 	"os"
@@ -26,6 +27,7 @@ import (
 	"strconv"
 	"strings"
 	"sync"
+	"syscall"
 	"testing"
 	"time"
 
@@ -125,6 +127,11 @@ type c10Case struct {
 	// installs an io.Reader body (`R<text>@<j>`) or a non-rewindable file reader (`F<text>@<j>`) when
 	// it sees attempt number j (hooks do the same with actions R<hex> / F<hex>)
 	pre string
+	// round 5: how script position k is REALISED by the scripted transport — "<cause>/<ctx>" with a
+	// real error value of that kind (net/http's Client.Timeout error, a dial timeout of package
+	// net, a connection reset, the context's own errors) and the state the request's context is
+	// left in; "" = the plain realisation of the symbol
+	real []string
 	// multipart written through a pipe (EnableForceChunkedEncoding) instead of a buffer: same wire content
 	chunked bool
 }
@@ -488,6 +495,20 @@ func (x *c10Run) RoundTrip(r *http.Request) (*http.Response, error) {
 	// responses and errors are tagged with the RetryAttempt of the attempt that produced them
 	// (= the pass index k as long as the Request is sent once; a re-sent Request goes on counting)
 	ra := x.req.RetryAttempt
+	if k < len(x.tc.real) && x.tc.real[k] != "" {
+		cause, cs, _ := strings.Cut(x.tc.real[k], "/")
+		switch cs {
+		case "canceled":
+			x.ctx.finish(context.Canceled)
+		case "expired":
+			x.ctx.finish(context.DeadlineExceeded)
+		}
+		if cause != "none" {
+			kind := map[string]string{"transport": "t", "clientTimeout": "d", "netTimeout": "d", "ctxDeadline": "d", "ctxCanceled": "c"}[cause]
+			return nil, &c10Err{kind, ra, c10RealErr(cause)}
+		}
+		o = "s" + strings.TrimLeft(o, "sL") // the response itself; the context has been dealt with
+	}
 	switch o[0] {
 	case 't':
 		return nil, &c10Err{"t", ra, nil}
@@ -519,6 +540,83 @@ func (x *c10Run) RoundTrip(r *http.Request) (*http.Response, error) {
 	return &http.Response{StatusCode: code, Status: strconv.Itoa(code) + " X", Proto: "HTTP/1.1", ProtoMajor: 1, ProtoMinor: 1,
 		Header:        hdr,
 		ContentLength: int64(len(content)), Body: io.NopCloser(strings.NewReader(content)), Request: r}, nil
+}
+
+// ---- error kinds x context states (round 5)
+
+var c10Causes = []string{"none", "transport", "clientTimeout", "netTimeout", "ctxDeadline", "ctxCanceled"}
+var c10CtxStates = []string{"alive", "canceled", "expired"}
+
+var (
+	c10RealOnce          sync.Once
+	c10ClientTimeoutErr  error
+	c10DialTimeoutErr    error
+	c10RealErrsCollected string
+)
+
+// c10RealErr hands out a REAL error value of the kind: what net/http returns when Client.Timeout
+// fires, what package net returns for a dial that times out — produced once against a loopback
+// listener that never answers — a connection reset, and the context's own errors as the
+// transports wrap them.
+func c10RealErr(cause string) error {
+	c10RealOnce.Do(func() {
+		ln, err := net.Listen("tcp", "127.0.0.1:0")
+		if err != nil {
+			c10RealErrsCollected = "listen: " + err.Error()
+			return
+		}
+		defer ln.Close()
+		go func() {
+			for {
+				c, err := ln.Accept()
+				if err != nil {
+					return
+				}
+				defer c.Close() // held open, never answered
+			}
+		}()
+		_, c10ClientTimeoutErr = (&http.Client{Timeout: 30 * time.Millisecond}).Get("http://" + ln.Addr().String() + "/")
+		_, c10DialTimeoutErr = (&net.Dialer{Timeout: time.Nanosecond}).Dial("tcp", ln.Addr().String())
+	})
+	switch cause {
+	case "transport":
+		return &net.OpError{Op: "read", Net: "tcp", Err: syscall.ECONNRESET}
+	case "clientTimeout":
+		return c10ClientTimeoutErr
+	case "netTimeout":
+		return c10DialTimeoutErr
+	case "ctxDeadline":
+		return &url.Error{Op: "Post", URL: "http://c10.test/", Err: context.DeadlineExceeded}
+	case "ctxCanceled":
+		return &url.Error{Op: "Post", URL: "http://c10.test/", Err: context.Canceled}
+	}
+	return nil
+}
+
+// c10AttSym: the script symbol of an attempt of that cause that leaves the context in that state
+// (the harness's own table; the model's is Req.RetryKinds.Att.outcome, compared through `c10kind`).
+func c10AttSym(cause, ctx string, code int) string {
+	switch {
+	case cause == "none" && ctx == "alive":
+		return "s" + strconv.Itoa(code)
+	case cause == "none":
+		return "L" + strconv.Itoa(code)
+	case cause == "ctxCanceled":
+		return "c"
+	case cause == "transport" && ctx == "alive":
+		return "t"
+	case cause == "transport":
+		return "T"
+	case cause == "ctxDeadline":
+		return "D"
+	case ctx == "alive":
+		return "d"
+	}
+	return "D"
+}
+
+func c10Coherent(cause, ctx string) bool {
+	return (cause != "ctxDeadline" || ctx == "expired") && (cause != "ctxCanceled" || ctx == "canceled")
 }
 
 // c10SetCookies adds the Set-Cookie headers a script token asks for (`…^name:value+name:`; an
@@ -1760,6 +1858,62 @@ func TestVerif_C10_loop(t *testing.T) {
 		}
 	}
 	s.Count("exhaustive-cases")
+	// error KIND x context STATE with REAL error values: every coherent (cause, context state)
+	// pair, alone and followed by a second one, x counts x policies; the model is given the script
+	// symbols its own table (`c10kind` = Att.outcome) assigns, the scripted transport returns the
+	// real errors — a decision that reads "looks like a deadline" off the error instead of asking
+	// the context shows here
+	{
+		type att struct{ cause, ctx string }
+		var atts []att
+		b2 := func(b bool) string { return map[bool]string{true: "1", false: "0"}[b] }
+		for _, ca := range c10Causes {
+			for _, cs := range c10CtxStates {
+				code := 503
+				e := c10RealErr(ca)
+				if ca != "none" && e == nil {
+					t.Fatalf("no real error value for cause %s (%s)", ca, c10RealErrsCollected)
+				}
+				impl := c10AttSym(ca, cs, code) + " dl=" + b2(errors.Is(e, context.DeadlineExceeded)) + " cn=" + b2(errors.Is(e, context.Canceled)) + " coh=" + b2(c10Coherent(ca, cs))
+				s.Case("c10kind "+ca+" "+cs+" "+strconv.Itoa(code), impl, true, "", true, "attempt cause="+ca+" context="+cs+" -> "+impl)
+				s.Count("kind:" + ca)
+				if c10Coherent(ca, cs) {
+					atts = append(atts, att{ca, cs})
+				}
+			}
+		}
+		var seqs2 [][]att
+		for _, a := range atts {
+			seqs2 = append(seqs2, []att{a})
+			for _, b := range atts {
+				seqs2 = append(seqs2, []att{a, b})
+			}
+		}
+		for qi, sq := range seqs2 {
+			for pi, p := range pols {
+				for ci, cnt := range counts {
+					if !verifh.Thorough() && len(sq) > 1 && (qi+pi+ci)%3 != 0 {
+						continue
+					}
+					tc := c10Simple()
+					for _, a := range sq {
+						tc.script = append(tc.script, c10AttSym(a.cause, a.ctx, 503))
+						tc.real = append(tc.real, a.cause+"/"+a.ctx)
+					}
+					tc.script = append(tc.script, "c")
+					tc.clientOps = append([]string{}, p.clientOps...)
+					tc.reqOps = append([]string{}, p.reqOps...)
+					tc.conds, tc.hooks, tc.after = p.conds, p.hooks, p.after
+					if cnt != "" {
+						tc.reqOps = append(tc.reqOps, cnt)
+					}
+					tc.useSend = (pi+ci)%2 == 1
+					recs = append(recs, c10Exec(tc, dir))
+					s.Count("kinds-real")
+				}
+			}
+		}
+	}
 	// Set vs Add, systematically: every client-level op list x request-level op list of length
 	// <= 2 over {Set, Add} x two stubs, once for conditions and once for hooks
 	var opLists [][]string
